@@ -156,6 +156,9 @@ func verifyHashRuleSliceInfos(locations []int, slices []string) (map[int]int, er
 		return nil, errors.ErrLocationsCount
 	}
 	for i := 0; i < len(locations); i++ {
+		if locations[i] < 0 {
+			return nil, fmt.Errorf("locations[%d] must not be negative: %d", i, locations[i])
+		}
 		for j := 0; j < locations[i]; j++ {
 			tableToSlice[j+sumTables] = i
 		}
